@@ -570,6 +570,12 @@ func (rl *Shell) shellTransposeWords() {
 		return
 	}
 
+	// The two words must be distinct regions of the line, in order.
+	if wbpos < 0 || wepos < wbpos || tepos < tbpos || tepos > rl.line.Len() {
+		rl.cursor.Set(startPos)
+		return
+	}
+
 	// Assemble the newline
 	begin := string((*rl.line)[:wbpos])
 	newLine := append([]rune(begin), []rune(toTranspose)...)
